@@ -242,7 +242,7 @@ PROPS["C08"] = {
                {"dir": "probes/guard_outlives_world", "expect": "fail", "grep": "error[E0505]", "single": True, "why": "a guard must not outlive the world"},
                {"dir": "probes/entry_excludes_fetch", "expect": "fail", "grep": "error[E0502]", "single": True, "why": "no guard can be taken while an entry borrows the world exclusively"},
                {"dir": "probes/world_guards_ok", "expect": "compile", "why": "control: the same calls in a legal order compile"}],
-    "assumptions": [CELL + "; each cell operation (try_borrow, borrow_mut, guard drop) is one atomic step, so a many-thread history is treated as an interleaving of the modelled operations (linearizability of AtomicRefCell is assumed, not proved; the stress part of the engine only checks that no two incompatible guards ever coexist)", TYPES],
+    "assumptions": [CELL + "; each cell operation (try_borrow, try_borrow_mut, guard drop) is one atomic read-modify-write on the borrow word (Model/CellWord.lean transcribes atomic_refcell 0.1.14 l.196-319 by hand); C08.any_interleaving proves that every sequence of such steps - hence every interleaving of any number of threads - answers what the abstract borrow state answers; assumed: the transcription, single-location coherence of atomics, no refcount overflow; the stress part of the engine checks on the real cell that no two incompatible guards ever coexist", TYPES],
 }
 PROPS["C09"] = {
     "statement": "C09.refines_state / refines_out (every operation commutes with abs : World -> (ResId -> Option Token) and answers what the map answers), C09.typed_linear_invariant (type tag = key type; conservation of values), C09.mismatch_panics, C09.linear / dropped_exactly_once — all over histories that include values whose Drop panics and closures that panic; C09.insert_replaces_when_drop_panics, or_insert_occupied_drop_panics, or_insert_with_closure_panics, entry_stores_before_caller_panics, dropReturned_keeps_linear, dropWorld_panic_at_most_once (the interrupted drop of the world drops or leaks each value, never twice)",
@@ -261,7 +261,7 @@ TEXT = {
     "C05": "Proof: every trace of the parallel plan has the effect of the unique sequential trace, provided events of non-conflicting systems commute - which is proved for the harness's order-sensitive systems (C05_harness_commutes); repetition by induction. Tied by comparing real parallel dispatches with a sequentially dispatched twin and with the model's evaluation, with and without the parallel feature.",
     "C06": "Proof by structural induction over the system-data type tree: fetch borrows exactly the reported present resources (multisets), fails iff a required resource is absent or a borrow conflicts and then releases everything, drop releases, reads/writes/setup are concatenation/composition over members. Tied by 229 real Rust types (all tuple arities 1-26, all member kinds at all positions, nestings, derived structs incl. member-generic ones) x presence patterns. Assumes parametricity of the generic tuple impls.",
     "C07": "Proof: the accessor add_batch computes is exactly controller data + inner declarations; conflicts lift; Level/BodyOK compose so that isolation, order and exactly-once hold for dispatchers with batches nested to any depth, for the tagged builder the driver runs. Tied by batch-heavy layouts and traces. PARTIAL for KF1 inputs.",
-    "C08": "Proof: the borrow invariant (free / n shared guards / one exclusive guard) is preserved by every operation over every legal history; outcome_spec, panic_frame, drop_exact; scope_frame: a closure under catch_unwind that takes guards of any kind (typed, by-id, tuple fields, meta-iterator items, clones) and returns, panics, or is refused a fetch after partial acquisition gives back exactly what it took (unwinding = return); entry / exec callers that panic holding the guard. Tied by random histories incl. such closures (also while outer guards on the same resources are alive) with a probe of every cell - state and exact shared count - after every operation; threads that panic while holding guards in the many-thread part. PARTIAL: the many-thread clause assumes atomicity of AtomicRefCell (stress run with shadow counters only).",
+    "C08": "Proof: the borrow invariant (free / n shared guards / one exclusive guard) is preserved by every operation over every legal history; outcome_spec, panic_frame, drop_exact; scope_frame: a closure under catch_unwind that takes guards of any kind (typed, by-id, tuple fields, meta-iterator items, clones) and returns, panics, or is refused a fetch after partial acquisition gives back exactly what it took (unwinding = return); entry / exec callers that panic holding the guard. Tied by random histories incl. such closures (also while outer guards on the same resources are alive) with a probe of every cell - state and exact shared count - after every operation; threads that panic while holding guards in the many-thread part. The many-thread clause: the four word-level operations of atomic_refcell are transcribed (Model/CellWord.lean) and proved to refine the abstract borrow state over every sequence of atomic steps (any_interleaving); PARTIAL in that the transcription of that dependency is tied to the real cell only by stress runs with shadow counters.",
     "C09": "Proof: refinement of the world to a map ResId -> token (every operation commutes with the abstraction and answers what the map answers), type-tag invariant, mismatch panics leave the world unchanged, value accounting (each token in exactly one of world / returned / dropped) - also when the Drop of a value panics where the world drops it (insert replacing: the new value is in place first; or_insert on an occupied slot; the caller dropping a removed value; the world's own drop, which may leak but never drops twice) and when or_insert_with's closure or the caller holding the entry guard panics. Tied by random histories incl. mismatching type arguments with drop counters and a one-shot panicking Drop armed at each of those places, the accounting checked from the drop log before any stored value is looked at again.",
     "C10": "Proof: every stage the code's insertion_target skips is justified by a conflicting earlier system or a dependency at/behind it (on the five tables of the code, for every registration sequence, after repair D3); compatible dependency-free systems share one stage; max_threads is the widest stage. Tied by exact layout comparison and max_threads().",
     "C11": "Proof about a pool MODEL (assumption about rayon): with >= n idle workers n rendezvous systems always meet and never deadlock; with fewer they do deadlock (the executable prediction is exact); plus a model of builder.rs's pool slots: which pool every dispatcher (top level, batch, nested batch) runs on - the default pool has rayon's default size whatever dispatcher created it, a supplied pool serves the top level and its batches. PARTIAL by nature: the tie is the complete enumeration of widths 2-16 x pool sizes x {user pool, default pool, batch-inner, async, foreign caller} and generated plans x configurations (hints, group sizes, multi-stage, nested batches, default pool sized by the harness in child processes, pools given early / late / to batch builders, build / build_async) with real rendezvous runs on the stages of the implementation's own plan, which must equal the model's plan; plus a model of the async dispatcher over call sequences (the caller, never a pool thread, waits for the previous dispatch; every dispatch has the whole pool), tied by generated sequences of dispatch / wait / wait_without_tl / running / world with the wide stage behind a slow first stage.",
